@@ -16,7 +16,11 @@ EXPLANATION = (
     "dependent dispatcher calls HANDLER_i only on a path whose condition implies isinstance(arg_k, T_{i,k}) at every dependent position. Together: a "
     "method body is entered only with arguments its annotations accept. recurse/call_next sites are ordinary lookups (C08/C09)."
 )
-ASSUMPTIONS = ["for a type[T] annotation 'is an instance of' reads 'is a type that is a subtype of T' (C14)"]
+ASSUMPTIONS = [
+    'MultiTypeMap.mro (mode U): each handler occurs at most once in a per-entry table (register stores it under one type per entry)',
+    'MultiTypeMap.mro (mode U): signatures have vararg=False (Signature.extract rejects *args; register creates the -1 table only for vararg signatures)',
+    'MultiTypeMap.mro (mode U): the key is non-empty (__missing__ answers () before calling resolve)',
+    "for a type[T] annotation 'is an instance of' reads 'is a type that is a subtype of T' (C14)"]
 TRUSTED = ["compile/exec of emitted text", "TypeMap contract at the mro call site"]
 BOUNDS = {"I": "shape families of native/gen_dispatch.py and native/gen_dependent.py", "e2e": "<=3 methods, call shapes p / p,p / p,k"}
 
@@ -24,7 +28,7 @@ BOUNDS = {"I": "shape families of native/gen_dispatch.py and native/gen_dependen
 def tasks(tier):
     t = _gen.entry_tasks(tier) + _gen.dep_tasks(tier)
     t += _tm.sort_types_tasks()[:1] + _tm.typemap_tasks()[1:2]
-    t += _tm.e2e_tasks(["complete"], tier)
+    t += _tm.mro_unbounded_tasks()[:1] + _tm.e2e_tasks(["complete"], tier)
     t += [_tm.T(f"subclasscheck/meaning[{k}]", mro_c.t_sc_meaning(k)) for k in mro_c.C13_KINDS]
     t += [_tm.T(f"subclasscheck/dependent_applicable_iff_bound[{k}]", mro_c.t_sc_dependent(k)) for k in mro_c.DEP]
     t += [_tm.T("DependentType.__instancecheck__", mro_c.t_dep_instancecheck)] + _tm.wrap_tasks()
